@@ -79,6 +79,17 @@ def oracle(res, year, gates, out, tv, label, rp, drive):
         if reader is not None and (attempt is None or attempt.split('.')[0].split(':')[0] != reader):
             continue
         hit.add((g, attempt))
+    # gates on input forms, judged on what the solution holds: a statement taking part
+    # in the return declares the situation whether or not a line happened to look at the box
+    vals = {k: v[-1] for k, v in tv.stored.items()}
+    for k, v in vals.items():
+        base = strip_instance(k)
+        if base == 'w-2.box_13_statutory' and v is True and base in gates:
+            hit.add((base, k))
+        if base == '1099-r.box_2b_taxable_not_determined' and v is True and base in gates and year >= 2022:   # 2021 takes pensions from a yes/no gate, not from Forms 1099-R
+            sec = k.split('.')[0]
+            if vals.get(f'{sec}.box_7_ira_sep_simple') is False:      # a pension / annuity, not an IRA
+                hit.add((base, k))
     res.count('gate_affirmative_reads', len(hit))
     for g, attempt in hit:
         res.distinct.add(f'{year}|{g}')
@@ -154,10 +165,34 @@ def run_shard(spec, tier, seed):
             many_div[f'1099-div:{k}.box_1b'] = '0'
         cases.append(('more-than-14-interest-payers', 'F2', 'S', many_int, {}, '1040.number_1099-int'))
         cases.append(('more-than-14-dividend-payers', 'F2', 'S', many_div, {}, '1040.number_1099-div'))
+        # the fifteenth payer is what lifts the total over 1,500 (the first fourteen stay below)
+        edge_int = {k_: ('101.00' if k_.endswith('box_1') else v_) for k_, v_ in many_int.items()}
+        edge_div = {k_: ('101.00' if k_.endswith('box_1a') else v_) for k_, v_ in many_div.items()}
+        cases.append(('more-than-14-interest-payers-15th-crosses-threshold', 'F2', 'S', edge_int, {}, '1040.number_1099-int'))
+        cases.append(('more-than-14-dividend-payers-15th-crosses-threshold', 'F2', 'S', edge_div, {}, '1040.number_1099-div'))
         # HSA contribution above the limit
         lim = st.amount('hsa_limit_self', year)
         cases.append(('hsa-contribution-over-limit', 'F4', 'S', {'8889:you.hsa_contributions': f'{lim + 1:.2f}', '8889:you.hdhp_plan_family': 'no', '1040_s1.hsa_contribution_you': 'yes',
                                                                  '1040.schedule_1_income_adjustments': 'yes', '8889:you.employer_contribution': '0'}, {}, '8889:you.hsa_contributions'))
+        # a pension whose taxable amount is not determined, next to an IRA distribution, in both orders
+        for fam_, q0 in scen.directed_personas(year, seed, 2):
+            if fam_ != 'F9m':
+                continue
+            out0 = scen.solve_persona(q0)
+            if out0.exc is not None or out0.ret is not True:
+                continue
+            ans = dict(q0.answers)
+            for k_ in list(ans):
+                if k_.endswith('.box_7_ira_sep_simple') and ans[k_] == 'no':
+                    ans[k_.replace('box_7_ira_sep_simple', 'box_2b_taxable_not_determined')] = 'yes'
+            q1 = scen.Persona(year, 'F9', q0.key, overrides=ans)
+            q1.nc = False
+            out2, tv2, t2 = realwork.traced(q1)
+            res.evaluations += 1
+            res.count('directed_flips')
+            hit = oracle(res, year, gates, out2, tv2, f'{year} mixed IRA/pension 1099-R {q0.key}', realwork.replay_of(q1, 'mixed-1099-r', spec), drive)
+            if '1099-r.box_2b_taxable_not_determined' in hit:
+                res.add('gates_read_affirmative', f'{year}|1099-r.box_2b_taxable_not_determined')
         for name, fam, status, ov, pre, readkey in cases:
             done = 0
             for k in range(60):
